@@ -2257,6 +2257,6 @@ func main() {
 		}
 		add(kind, in)
 	}
-	out.Extra["rule"] = "a case = one write finisher (Create, Create(&slice)/CreateInBatches, Create from map, upsert UpdateAll / DoUpdates(cols) / DoNothing, Save (also of a pointer to the pointer), Save of a slice mixing stored and fresh keys, Update, Updates struct|map, UpdateColumn, UpdateColumns struct|map, Create(&[]map) with per-key column/field spelling, [Model(&T{}).]Where(2-3 rows).Assign(map).FirstOrCreate|FirstOrInit on a found record) on one of six fixed hand-written model types or (half of the cases) on a GENERATED model type built with reflect.StructOf: key + 3-6 string/int fields, each with an independent random choice of '-' / '-:all' / '-:migration', '->' / '->:false' and '<-' / '<-:create' / '<-:update' / '<-:false' / '<-:create,update', default or custom column, a database-side default `default:(expr)` on 1/4 of the fields, 1/4 of the data fields pointer-typed (*int64, *string, *bool; payload nil / pointer to the zero value / pointer to a non-zero value), fields placed inside an anonymous embedded struct, inside a struct field tagged `embedded` or as the struct's FIRST field (before the key), optional CreatedAt / UpdatedAt / Touched tracked fields of every admissible Go type (time.Time, *time.Time, int, int32, int64, uint, uint32, uint64; seconds by name or tag, milli / nano by tag) with random permissions. The fixed types (together they carry every permission tag <-:create <-:update <-:false <- -> ->:false ->;<-:create - -:migration -:all <-:create,update, custom column names, and auto-time fields as time.Time / unix seconds / milliseconds with and without write permission)) x random Select/Omit lists (0-3 items: '*', 'tbl.*', struct-field spelling, column spelling, 'tbl.col', unknown name) x a statement-cloning step (Session, WithContext, Begin...Commit) between the chain / Select / Omit and the finisher in 2/5 of the cases x payload with zero and non-zero entries (struct: every field; map: 1-4 keys in column or field spelling) x model key (a struct, or a slice of 2-3 structs mixing keyed and key-less elements in every order, always with a Where) and/or Where(row IN subset) selecting a strict subset of the 4 stored rows; the seventh fixed type M7 has a COMPOSITE primary key (ID, Locale) whose stored rows share members pairwise, updated through model values carrying the whole key or one member. Observed: the cell-by-cell diff of the table (raw SELECT) with each changed cell classified now / payload value / other, and gorm's parsed permission flags. Stream raw-keys (1 map update in 4 on generated types): the Model is a narrower VIEW struct of the table (some given key is no field of it) or there is no Model at all (Table(t).Where(..).[Select][Omit].Updates(map) / Update / UpdateColumn(s)), under a restricting Select or an Omit over the given keys; there `tbl.*` in Select and `*` / `tbl.*` in Omit are not generated and a schema-less statement gets plain column names only. Domain: map keys name existing columns and (for updates) never the primary key; DoUpdates(cols) runs without Select/Omit; the struct payload is of the model type with a zero key; updates always carry a model key or a Where; explicit DoUpdates lists name only columns with create and update permission. distinct = distinct (type, finisher, select, omit, payload zero pattern and spelling, targeting); non-trivial = some cell changed and (a Select/Omit is present or the type carries permission tags)."
+	out.Extra["rule"] = "a case = one write finisher (Create, Create(&slice)/CreateInBatches, Create from map, upsert UpdateAll / DoUpdates(cols) / DoNothing, Save (also of a pointer to the pointer), Save of a slice mixing stored and fresh keys, Update, Updates struct|map, UpdateColumn, UpdateColumns struct|map, Create(&[]map) with per-key column/field spelling, [Model(&T{}).]Where(2-3 rows).Assign(map).FirstOrCreate|FirstOrInit on a found record) on one of six fixed hand-written model types or (half of the cases) on a GENERATED model type built with reflect.StructOf: key + 3-6 string/int fields, each with an independent random choice of '-' / '-:all' / '-:migration', '->' / '->:false' and '<-' / '<-:create' / '<-:update' / '<-:false' / '<-:create,update', default or custom column, a database-side default `default:(expr)` on 1/4 of the fields, 1/4 of the data fields pointer-typed (*int64, *string, *bool; payload nil / pointer to the zero value / pointer to a non-zero value), fields placed inside an anonymous embedded struct, inside a struct field tagged `embedded` or as the struct's FIRST field (before the key), optional CreatedAt / UpdatedAt / Touched tracked fields of every admissible Go type (time.Time, *time.Time, int, int32, int64, uint, uint32, uint64; seconds by name or tag, milli / nano by tag) with random permissions. The fixed types (together they carry every permission tag <-:create <-:update <-:false <- -> ->:false ->;<-:create - -:migration -:all <-:create,update, custom column names, and auto-time fields as time.Time / unix seconds / milliseconds with and without write permission)) x random Select/Omit lists (0-3 items: '*', 'tbl.*', struct-field spelling, column spelling, 'tbl.col', unknown name) x a statement-cloning step (Session, WithContext, Begin...Commit) between the chain / Select / Omit and the finisher in 2/5 of the cases x payload with zero and non-zero entries (struct: every field; map: 1-4 keys in column or field spelling) x model key (a struct, or a slice of 2-3 structs mixing keyed and key-less elements in every order, always with a Where) and/or Where(row IN subset) selecting a strict subset of the 4 stored rows; the seventh fixed type M7 has a COMPOSITE primary key (ID, Locale) whose stored rows share members pairwise, updated through model values carrying the whole key or one member. Observed: the cell-by-cell diff of the table (raw SELECT) with each changed cell classified now / payload value / other, and gorm's parsed permission flags. Stream raw-keys (1 map update in 4 on generated types): the Model is a narrower VIEW struct of the table (some given key is no field of it) or there is no Model at all (Table(t).Where(..).[Select][Omit].Updates(map) / Update / UpdateColumn(s)), under a restricting Select or an Omit over the given keys; there `tbl.*` in Select and `*` / `tbl.*` in Omit are not generated and a schema-less statement gets plain column names only. Round 7: 1 update in 3 is preceded by 1-2 earlier map updates (Update / Updates(map) / UpdateColumn / UpdateColumns(map), own keys and values) through the very handle it is called on, the table put back in between (under RETURNING only with a keyed Model value, since the clause scans the returned row into it; a column update sets SkipHooks on the handle for good, so column updates precede column updates only; not inside an open transaction, not on unconditional statements); 1 struct update in 3 on single-key types hands Updates / UpdateColumns a struct of ANOTHER type than the Model (a patch type over the same columns: the key, the tracked time fields with the model's tags, each data field dropped, untagged, tagged like the model's or with freshly drawn permission tags). Domain: map keys name existing columns and (for updates) never the primary key; DoUpdates(cols) runs without Select/Omit; the struct payload is of the model type with a zero key; updates always carry a model key or a Where; explicit DoUpdates lists name only columns with create and update permission. distinct = distinct (type, finisher, select, omit, payload zero pattern and spelling, targeting); non-trivial = some cell changed and (a Select/Omit is present or the type carries permission tags)."
 	lib.Must(out.Flush())
 }
